@@ -347,6 +347,16 @@ def run(chk):
         chk.violation("C11.set" if v["rule"].startswith("C15") else v["rule"], "following:" + v["key"], "a followed-command change can no longer restart the computation: " + v["what"], **v["detail"])
     if not badw:
         chk.discharge(keyw)
+    # ... and arrives through Settable's provided methods: follow / update_following_data table (shared with C15)
+    subf = report.Check("C11", chk.tier)
+    C15.check_following(subf, prog, sim)
+    chk.evaluations += subf.evaluations
+    keyf = "set:follow-table"
+    chk.obligation(keyf, "Settable::follow / update_following_data table (a followed command change reaches the controller through it) - shared with C15")
+    for v in subf.violations:
+        chk.violation("C11.set" if v["rule"].startswith("C15") else v["rule"], "follow:" + v["key"], "a followed-command change can no longer restart the computation: " + v["what"], **v["detail"])
+    if not subf.violations:
+        chk.discharge(keyf)
     chk.assume("real-arithmetic model (rounding not decided)", "following = None; a followed command change is a set() and is covered by impl_set + C15",
                "runs longer than the scripts follow the same recurrence (the third-sample-onward branch is exercised twice in the longest script)")
     chk.extra["std_models"] = sorted(sim.stats["models_used"])
